@@ -103,6 +103,9 @@ CATALOGUE = [
     ("object without fields", OK_BASE + "type Empty"), ("interface-implementing object without fields", OK_BASE + "interface I { x: Int } type Empty implements I"),
     ("union containing itself", OK_BASE + "type A { x: Int } union U = A | U"), ("union containing only itself", OK_BASE + "union U = U"),
     ("duplicate enum values", OK_BASE + "enum E { A B A }"), ("duplicate enum values (adjacent)", OK_BASE + "enum E { A A }"), ("duplicate enum value via extend", OK_BASE + "enum E { A B } extend enum E { B }"),
+    ("duplicate enum value across two extensions", OK_BASE + "enum E { A } extend enum E { B } extend enum E { B }"), ("duplicate enum value inside one extension", OK_BASE + "enum E { A } extend enum E { B B }"),
+    ("duplicate field across two extensions", OK_BASE + "type T { x: Int } extend type T { y: Int } extend type T { y: Int }"), ("duplicate union member across two extensions", OK_BASE + "type A { x: Int } type B { x: Int } union U = A extend union U = B extend union U = B"),
+    ("duplicate input field across two extensions", OK_BASE + "input In { x: Int } extend input In { y: Int } extend input In { y: Int }"), ("interface implemented by two extensions", OK_BASE + "interface I { x: Int } type T { x: Int } extend type T implements I extend type T implements I"),
     ("duplicate type (object/object)", "type Query { a: Int } type T { x: Int } type T { y: Int }"), ("duplicate type (object/enum)", OK_BASE + "type T { x: Int } enum T { A }"),
     ("duplicate type (scalar/object)", OK_BASE + "scalar My type My { x: Int }"), ("duplicate type (input/interface)", OK_BASE + "input X { x: Int } interface X { x: Int }"),
     ("duplicate type: Query twice", "type Query { a: Int } type Query { b: Int }"), ("duplicate of a built-in scalar", OK_BASE + "scalar Int"),
